@@ -361,7 +361,7 @@ impl<'a> DynamicallyResolvedValue<'a> {
             }
             Operation::GreaterThanOrEqual(_, _) => {
                 resolve_fold_specific_field!(iterator, initial_candidate, candidate, value, {
-                    candidate.intersect(CandidateValue::Range(Range::with_end(
+                    candidate.intersect(CandidateValue::Range(Range::with_start(
                         Bound::Included(value),
                         false,
                     )));
